@@ -1,4 +1,4 @@
-use std::collections::{HashMap, HashSet};
+use std::collections::HashMap;
 
 use crate::cli;
 use crate::color;
@@ -66,14 +66,17 @@ fn resolve_style_references(
 ) -> HashMap<String, Style> {
     let mut resolved_styles = HashMap::new();
 
-    for starting_node in edges.keys() {
+    // (in a fixed order, so that the message about a cycle is the same on every run)
+    let mut starting_nodes: Vec<_> = edges.keys().collect();
+    starting_nodes.sort();
+    for starting_node in starting_nodes {
         if resolved_styles.contains_key(*starting_node) {
             continue;
         }
-        let mut visited = HashSet::new();
+        let mut visited = Vec::new();
         let mut node = *starting_node;
         loop {
-            if !visited.insert(node) {
+            if visited.contains(&node) {
                 #[cfg(not(test))]
                 fatal(format!("Your delta styles form a cycle! {visited:?}"));
                 #[cfg(test)]
@@ -82,6 +85,7 @@ fn resolve_style_references(
                     .map(|(a, b)| (a.to_string(), *b))
                     .collect();
             }
+            visited.push(node);
             match &edges.get(&node) {
                 Some(StyleReference::Reference(child_node)) => node = child_node,
                 Some(StyleReference::Style(style)) => {
